@@ -299,7 +299,7 @@ def run(ctx):
     generated(ctx)
     ctx.cov["rule"] = (
         "forwarding: scripts (request name, interceptor, registry/fallback/factory tables, k messages, header, trailer, "
-        "status position/code, caller failure, repetitions) generated by TLC from spec/Forward.tla (11 fixed + random), each "
+        "status position/code, caller failure, repetitions) generated by TLC from spec/Forward.tla (19 fixed, among them every look-empty name behind the interceptor, + random), each "
         "run through every method of every generated router with a random request; non-trivial = the request reached a "
         "client or an error came back; distinct = distinct (router, method, script, invocation). registry: programs with "
         "complete schedules generated by TLC from spec/Router.tla (sequential, concurrent, racing first Gets), each forced "
